@@ -49,6 +49,7 @@ class World:
         self.version = 0
         self.counter = 0
         self.plan_dirty = False
+        self.s_on_disk = True  # whether the source s.txt exists on the (imagined) disk
 
     # ----- helpers
 
@@ -284,6 +285,8 @@ class World:
             path = "o.txt" if name == "rm_o" else "s.txt"
             st = await self.read(lambda: self.state_of(path))
             known = name == "touch"
+            if path == "s.txt":
+                self.s_on_disk = known
             key = (Cause.EXTERNAL, st, known)
             if st is not None and key in m["workflow"]._HASH_TRANSITIONS:
                 h = self.fh(path) if known else m["hash"].FileHash.unknown()
@@ -294,7 +297,8 @@ class World:
                     "SELECT label FROM node JOIN file ON file.node = node.i WHERE NOT detached AND file.state = ?",
                     (FS.UNCONFIRMED.value,)).fetchall()
                 if rows:
-                    wf.update_file_hashes({p: self.fh(p) for (p,) in rows}, cause=Cause.CONFIRMED)
+                    wf.update_file_hashes({p: (self.fh(p) if (p != "s.txt" or self.s_on_disk) else m["hash"].FileHash.unknown())
+                                           for (p,) in rows}, cause=Cause.CONFIRMED)
             await self.tx(confirm)
         elif name == "clean":
             await self.tx(wf.delete_detached)
